@@ -542,6 +542,17 @@ fn pub_cases(tier: Tier) -> Vec<PubCase> {
             }
         }
     }
+    // payloads from empty to larger than the whole transmit buffer, for each way of handing the payload over: what
+    // does not fit is refused, never clipped
+    for tx in [24usize, 40, 64, 100] {
+        for payload_len in 0..=tx + 12 {
+            for qos in 0..3u8 {
+                for payload_kind in 0..3u8 {
+                    v.push(PubCase { tx, qos, payload_len, payload_kind, ..base.clone() });
+                }
+            }
+        }
+    }
     // buffer sizes from nothing to "just fits" (payload 10, topic 1: 16/18 bytes on the wire)
     for tx in 30..=70usize {
         for qos in 0..3u8 {
